@@ -163,7 +163,18 @@ def bounded_sweep(contract, rid, quick=300, thorough=5000, cfg="-"):
     return run
 
 
+_REUSED_NAME = {}
+
+
 def reused_set_name():
+    import os as _os
+    key = _os.environ.get("VERIF_REPO", "/repo")
+    if key not in _REUSED_NAME:
+        _REUSED_NAME[key] = _reused_set_name()
+    return _REUSED_NAME[key]
+
+
+def _reused_set_name():
     """name of the module-level set of psutil/__init__.py into which Process.is_running() puts a PID it found recycled
     (`<name>.add(self.pid)`): found by role, so a rename of that private global does not detach the contracts from it"""
     import ast as _ast
